@@ -242,7 +242,32 @@ def gen_C16(rng, tier):
         finish(p, y, [batch, fo], rng, [x])
         for q in (pw, pb):
             t = p.bind('deref %s' % q); p.add('obs %s' % t)
-        p.tag(mode, 'batch%d' % batch, 'batch>1' if batch > 1 else 'batch1')
+        # the layer object is used again: further cycles after the parameters were reset in place, updated by the
+        # optimizer, replaced through the pointers, or left spent (then the next pass is detached from them)
+        cycles = rng.choice([0, 0, 1, 1, 2])
+        for c in range(cycles):
+            between = rng.choice(['reset-in-place', 'reset-in-place', 'update+reset', 'replace', 'nothing', 'reset-one'])
+            if between == 'reset-in-place':
+                for q in (pw, pb):
+                    t = p.bind('deref %s' % q); p.add('reset %s 1' % t)
+            elif between == 'reset-one':
+                t = p.bind('deref %s' % rng.choice([pw, pb])); p.add('reset %s 1' % t)
+            elif between == 'update+reset':
+                o = p.bind('sgd %s' % f2b(rng.choice([0.5, 0.125])), 'o')
+                for q in (pw, pb):
+                    p.add('upd %s %s' % (o, q))
+                    t = p.bind('deref %s' % q); p.add('reset %s %d' % (t, rng.choice([1, 1, 0])))
+            elif between == 'replace':
+                w3 = p.tensor([fo], [rng.uniform(-1, 1) for _ in range(fo)], tracked=rng.random() < 0.8)
+                p.add('setptr %s %s' % (rng.choice([pw, pb]), w3))
+            b2 = rng.randint(1, 3)
+            x2 = p.tensor([b2, fi], [rng.uniform(-2, 2) for _ in range(b2 * fi)], tracked=rng.random() < 0.6)
+            y2 = p.bind('fwd %s %s' % (f, x2)); p.add('obs %s' % y2)
+            finish(p, y2, [b2, fo], rng, [x2])
+            for q in (pw, pb):
+                t = p.bind('deref %s' % q); p.add('obs %s' % t)
+            p.tag('cycle:' + between)
+        p.tag(mode, 'batch%d' % batch, 'batch>1' if batch > 1 else 'batch1', 'cycles%d' % cycles)
         progs.append(p)
     return progs
 
